@@ -128,7 +128,15 @@ func (n *deviateDelete) propertyAction(target, property parse.Node) error {
 	if property.Type() == parse.NodeUnknown {
 		return nil
 	}
-	ch := target.LookupChild(property.Type(), property.Name())
+	// The property to delete is the one with the same argument (an empty
+	// argument is a value like any other, not "any value")
+	var ch parse.Node
+	for _, c := range target.ChildrenByType(property.Type()) {
+		if c.Argument().String() == property.Argument().String() {
+			ch = c
+			break
+		}
+	}
 	if ch == nil {
 		return fmt.Errorf("Property being deleted by deviation must exist [%s]", property.String())
 	}
